@@ -286,6 +286,15 @@ def joinedBeforeClose (gs : List (String × String)) (adds : List (String × Nat
 theorem serve_joins_all_goroutines :
     joinedBeforeClose Generated.serveGoroutines Generated.serveAdds Generated.serveWaits = true := by decide
 
+/-- `conn_tracked_until_closed`: `Stop` takes its snapshot from `srv.conns` and waits for the `closed` channel of every
+    connection in it (the model's `stopClients` marks every connection that is not finished as awaited). That is sound only
+    if a connection leaves `srv.conns` after its `closed` channel is closed — otherwise a `Stop` that starts in between misses a
+    connection whose `internalClose` (OnClosed hook, unregister, will, session termination) is still running, and returns
+    before it. In the tree the facts were extracted from every `delete(….conns, …)` of package server is a top-level statement
+    of its function placed after `close(client.closed)`, and there is at least one. -/
+theorem conn_tracked_until_closed :
+    Generated.connsDeletes ≠ [] ∧ ∀ d ∈ Generated.connsDeletes, d.2 = 1 := by decide
+
 /-! ## 6. lock order: the part that holds for every tree (the rest is in Properties/C15LockOrder.lean) -/
 
 /-- a path of ≥ 1 edges -/
